@@ -16,8 +16,10 @@ C06 "... leaves no trace when it departs"; it also runs stand-alone: tools/check
  and destruction of the server, detached twice, destroyed while attached, or called back after AboutToDetachFromServer() returned is a VIOLATION
  (judged by a monitor in the harness that does not involve the specification).  Any other difference in callback order / count / state is DRIFT.
 """
-import concurrent.futures as cf, json, os, re, random, threading
+import concurrent.futures as cf, json, os, re, random, subprocess, sys, threading
+sys.path.insert(0, os.path.join(os.path.dirname(os.path.abspath(__file__)), "..", "tools"))
 import vlib, pathcover
+_cover_slots = threading.Semaphore(6)
 
 # never more than 8 TLC workers at a time, whatever the thread pools do
 _permits = threading.Semaphore(8); _grab = threading.Lock()
@@ -173,7 +175,11 @@ def stage(v, tier, seed):
         dot = W("g_%s.dot" % tag)
         r = tlc("LifeMC", name, workers=1 if quick else 2, timeout=2400, heap="6g", dump=dot)
         vlib.require_ok(r, "LifeImpl model check + graph dump %s" % tag)
-        c = pp.submit(_cover_worker, dot, tag, N, nshard, W("beh_%s" % tag)).result()
+        # the path cover runs in a process of its own (pure Python: threads would serialise on the interpreter lock; and no fork() from this threaded process)
+        with _cover_slots:
+            pr_ = subprocess.run([sys.executable, os.path.abspath(__file__), "cover", dot, tag, str(N), str(nshard), W("beh_%s" % tag)], stdout=subprocess.PIPE, stderr=subprocess.PIPE, text=True, timeout=3000)
+        if pr_.returncode != 0: raise vlib.MachineryError("path cover %s failed: %s" % (tag, pr_.stderr[-1500:]))
+        c = json.loads(pr_.stdout)
         if c["covered"] != c["edges"]: raise vlib.MachineryError("path cover incomplete (%s): %d of %d" % (tag, c["covered"], c["edges"]))
         return dict(c, tag=tag, N=N, distinct=r.distinct, generated=r.generated, depth=r.depth, wall=round(r.wall, 1))
 
@@ -286,7 +292,7 @@ def stage(v, tier, seed):
     agg = {"behaviours": 0, "followed": 0, "drifted": 0, "steps": 0, "calls": 0, "callbacks": 0, "sessions": 0}
     ragg = {"histories": 0, "clean": 0, "steps": 0, "callbacks": 0, "trace_lines": 0, "sessions": 0, "nested_actions_fired": 0}
     accepted_hist = 0; tstates = 0; samples = []; first_trace = None
-    with cf.ThreadPoolExecutor(max_workers=8) as ex, cf.ThreadPoolExecutor(max_workers=8) as hx, cf.ProcessPoolExecutor(max_workers=4 if quick else 6) as pp:
+    with cf.ThreadPoolExecutor(max_workers=8) as ex, cf.ThreadPoolExecutor(max_workers=8) as hx:
         f_rand = [hx.submit(random_histories, nh, ns, NR, k) for k in range(rshards)]
         f_gen = [ex.submit(generate, i) for i in insts]
         f_reach = [ex.submit(reach, i, d, w_, a) for i, (d, w_, a) in enumerate(REACH)]
@@ -374,3 +380,7 @@ ASSUMPTIONS = ["single-threaded server pumped with ServerProcessLoop(0); the ser
 def run(v, tier, seed):
     cov = stage(v, tier, seed)
     return "model_checking", cov, ASSUMPTIONS
+
+
+if __name__ == "__main__" and len(sys.argv) > 6 and sys.argv[1] == "cover":
+    print(json.dumps(_cover_worker(sys.argv[2], sys.argv[3], int(sys.argv[4]), int(sys.argv[5]), sys.argv[6])))
